@@ -41,14 +41,16 @@ def thresholds(vfav, base, k):
     return [[float(np.float64(v) / (base ** (l / (k + 1)))) for l in range(1, k + 1)] for v in vfav]
 
 class Recorder:
-    def __init__(self, V, fixer, integer=False):
-        self.V, self.fixer, self.trace, self.integer = V, fixer, [], integer
+    def __init__(self, V, fixer, integer=False, pyscalars=False):
+        self.V, self.fixer, self.trace, self.integer, self.pyscalars = V, fixer, [], integer, pyscalars
     def __call__(self, a, b):
         self.trace.append((int(a), int(b)))
         v = self.V[int(a) - self.fixer][int(b) - self.fixer]
+        if self.pyscalars and float(v).is_integer():
+            return int(v)      # a user who answers "3" gives a Python int, "2.5" a Python float
         return float(v)
 
-def make_elicitor(V, memoize=True, zi=True, integer=False, eclass="lambda"):
+def make_elicitor(V, memoize=True, zi=True, integer=False, eclass="lambda", pyscalars=False):
     from socialchoicekit.elicitation_utils import LambdaElicitor, IntegerLambdaElicitor
     if eclass == "profile_int":
         # the valuation profile itself, stored with an integer dtype, behind the library's own elicitor class
@@ -61,7 +63,7 @@ def make_elicitor(V, memoize=True, zi=True, integer=False, eclass="lambda"):
             rec.trace.append((int(a), int(b))); return orig(a, b)
         el._elicit_impl = impl
         return el, rec
-    rec = Recorder(V, 0 if zi else 1, integer)
+    rec = Recorder(V, 0 if zi else 1, integer, pyscalars)
     cls = IntegerLambdaElicitor if integer else LambdaElicitor
     return cls(rec, memoize=memoize, zero_indexed=zi), rec
 
@@ -125,7 +127,14 @@ def run_rule(case, V=None, deadline=20.0, fork=False):
                 sim(prof, pe, mkrule(case["same_profile_first"]))
             except Exception:  # noqa
                 pass
-        el, rec = make_elicitor(V, case.get("memoize", True), case.get("ezi", True), eclass=case.get("eclass", "lambda"))
+        el, rec = make_elicitor(V, case.get("memoize", True), case.get("ezi", True), eclass=case.get("eclass", "lambda"), pyscalars=(case.get("answers") == "python_scalars"))
+        for (a_, b_) in case.get("pre_questions", []):      # history: the caller asked this elicitor some questions directly before handing it to the rule
+            el.elicit(int(a_), int(b_))                        # (elicit takes 0-based indices whatever the convention of the answering function)
+        if case.get("reuse_elicitor"):                       # history: the same elicitor object went through another rule (lambda-PRV, lambda = 1) on the same profile before
+            try:
+                LambdaPRV(lambda_=1, tie_breaker="accept", zero_indexed=case.get("zi", True)).score(prof, el)
+            except Exception:  # noqa
+                pass
         vt = sim(prof, el)
         if rule == "M2Q":
             res["rootn"] = [int(x) for x in root_n_serial_dictatorship(prof)]
